@@ -136,6 +136,13 @@ def cases(tier, seed):
     core = range(len(ALPHA)) if thorough else CORE
     for tup in itertools.product(core, repeat=3):
         yield {"k": "write", "files": [ALPHA[i] for i in tup], "fill": "default"}
+    # lists that use every one of the 68 granules
+    full = [[fspec("ML", 65535, "BIG1", pat="ramp7"), fspec("ML", 65535, "BIG2", pat="ff"), fspec("ASC", 10 * 2304 - 1, "REST", "TXT")],
+            [fspec("ML", 2 * 2304 - 20, "P{}".format(i)) for i in range(34)],
+            [fspec("BAS", 2304 - 3 - 1, "S{}".format(i), "BAS") for i in range(68)]]
+    for lst in full:
+        for fill in ("default", "reverse", "oddeven"):
+            yield {"k": "write", "files": lst, "fill": fill}
     lists = [[ALPHA[3]], [ALPHA[1], ALPHA[8], ALPHA[2]], [ALPHA[8], ALPHA[3], ALPHA[11]]]
     for name, order in fill_orders():
         for lst in lists:
@@ -190,6 +197,9 @@ def cell_of(case):
         return "hist|{}|{}".format(case["ops"], ",".join(lenclass(s) for s in case["files"]))
     if case["k"] == "frag":
         return "frag|base{}|{}|{}".format(case["base"], lenclass(case["files"][0]), case["fill"])
+    if case["k"] == "write" and len(case["files"]) > 4:
+        fs = case["files"]
+        return "write|{}x{}|{}|{}".format(kind_of(fs[0]), len(fs), lenclass(fs[0]), case["fill"])
     if case["k"] == "write":
         fs = case["files"]
         return "write|{}|{}|{}".format(",".join(kind_of(s) for s in fs) or "none", ",".join(lenclass(s) for s in fs) or "none", case["fill"])
